@@ -1,4 +1,5 @@
 import Bcder.Props.C12
+import Bcder.Props.C12b
 #print axioms Bcder.Props.C12.new_octets
 #print axioms Bcder.Props.C12.new_number_class
 #print axioms Bcder.Props.C12.write_eq_spec
@@ -9,3 +10,5 @@ import Bcder.Props.C12
 #print axioms Bcder.Props.C12.consts_universal
 #print axioms Bcder.Props.C12.consts_distinct
 #print axioms Bcder.Props.C12.low_tag_octets
+#print axioms Bcder.Props.C12b.read_write
+#print axioms Bcder.Props.C12b.write_prefix_free
